@@ -1,6 +1,7 @@
 import SynRBLModel.Proofs.Batching
 import SynRBLModel.Proofs.Pipeline3
 import SynRBLModel.Model.Preprocess
+import SynRBLModel.Proofs.Cli
 /-!
 # C05 — one result row per input row, in input order, for every input form
 -/
@@ -64,5 +65,39 @@ theorem C05_raw_rows (parse : Str → Bool) (oracleOf : Str → Oracle) (cfg : C
   split
   · simp only [runIn]; exact C05_row_describes_its_input _ cfg _
   · simp [runIn]
+
+end SynRBL
+
+namespace SynRBL
+open Cli
+
+/-- **C05 (command line).** The CSV the command-line run writes has one record per input record as soon as `rebalance`
+returned one row per input row (`C05_one_row_per_input`), and in record `i` every pass-through column that input record
+`i` has holds the value of input record `i` — whatever the pipeline did to a column of the same name (`id`, `products`,
+`reactants`, …) on the way. -/
+theorem C05_cli_passthrough (cols : List String) (ins outs : List Rec) (h : outs.length = ins.length) :
+    (passThrough cols ins outs).length = ins.length ∧
+    ∀ (i : Nat) (hi : i < (passThrough cols ins outs).length) (c : String), c ∈ cols →
+      ∀ v, getCol (ins[i]'(by rw [length_passThrough] at hi; omega)) c = some v →
+        getCol ((passThrough cols ins outs)[i]) c = some v := by
+  refine ⟨by rw [length_passThrough, h]; simp, ?_⟩
+  intro i hi c hc v hv
+  unfold passThrough at hi ⊢
+  rw [List.getElem_zipWith, getCol_passRow]
+  simp [hc, hv]
+
+/-- the other columns of a result row are exactly what the pipeline returned -/
+theorem C05_cli_other_columns_untouched (cols : List String) (ins outs : List Rec)
+    (i : Nat) (hi : i < (passThrough cols ins outs).length) (c : String) (hc : c ∉ cols) :
+    getCol ((passThrough cols ins outs)[i]) c
+      = getCol (outs[i]'(by rw [length_passThrough] at hi; omega)) c := by
+  unfold passThrough at hi ⊢
+  rw [List.getElem_zipWith, getCol_passRow]
+  simp [hc]
+
+/-- non-vacuity: the caller's `id` column survives although the pipeline overwrote it -/
+example : passThrough ["id", "tag"] [[("reaction", "C>>C"), ("id", "1001"), ("tag", "a")]]
+    [[("input_reaction", "C>>C"), ("id", "0"), ("solved", "True")]]
+    = [[("input_reaction", "C>>C"), ("id", "1001"), ("solved", "True"), ("tag", "a")]] := by decide
 
 end SynRBL
